@@ -273,6 +273,20 @@ pub fn gen(rng: &mut ChaCha20Rng, n: usize, thorough: bool) -> Vec<Case> {
     for l in 0..=3usize { for p0 in [0u8, 57, 39, 12, 235, 75, 4, 36, 19, 23] { let mut d = vec![p0; l.min(1)]; d.extend(vec![7u8; l.saturating_sub(1)]); addrs.push(elements::bitcoin::base58::encode_check(&d)); } }
     for l in [20usize, 21, 22, 53, 54, 55] { for p0 in [57u8, 39, 12, 4, 235, 75, 36, 19, 23] { let mut d = vec![p0]; d.extend(vec![9u8; l - 1]); addrs.push(elements::bitcoin::base58::encode_check(&d)); } }
     let mut strs: Vec<(String, &str)> = addrs.iter().map(|a| (a.clone(), "src:valid-or-fixed")).collect();
+    // blech32 / blech32m strings with a CORRECT checksum (own encoder) over every short data part: no data at all, a witness version alone
+    // (empty program), 1..8 further characters, and address-sized parts — the code behind the checksum test is unreachable for mutated strings
+    for hrp in ["lq", "el", "tlq", "ex", "a", "LQ"] { for m in [false, true] {
+        for ver in [None, Some(0u8), Some(1), Some(16), Some(17), Some(31)] {
+            let lens: &[usize] = if ver.is_none() { &[0] } else { &[0, 1, 2, 3, 4, 5, 7, 8, 13, 16, 85, 86, 104, 105] };
+            for &l in lens {
+                if l > 16 && !(hrp == "lq" || hrp == "el") { continue; }
+                let mut d: Vec<u8> = ver.into_iter().collect();
+                d.extend((0..l).map(|_| rng.gen_range(0..32u8)));
+                if l > 0 && rng.gen_range(0..2) == 0 { let n = d.len(); d[n - 1] = 0; }      // zero padding half of the time
+                strs.push((blech32_string(hrp, &d, m), "src:own-checksum"));
+            }
+        }
+    } }
     for _ in 0..2 * n { let a = addrs[rng.gen_range(0..addrs.len())].clone(); let mut m = mutate_string(rng, &a); if rng.gen_range(0..3) == 0 { m = mutate_string(rng, &m); } strs.push((m, "src:mutated")); }
     for _ in 0..n { let s = rstring(rng, 14); if !s.is_empty() { strs.push((s, "src:random-string")); } }
     for (s, src) in &strs {
@@ -510,4 +524,30 @@ pub fn truncated_pushes() -> Vec<(Vec<u8>, &'static str)> {
 /// pegin stacks may contain empty elements: written as `.` inside the comma separated list
 fn peglist(p: &[Vec<u8>]) -> String {
     if p.is_empty() { "-".into() } else { p.iter().map(|x| if x.is_empty() { ".".to_string() } else { hex(x) }).collect::<Vec<_>>().join(",") }
+}
+
+/// blech32 (m = false) / blech32m (m = true) text of `hrp` and 5-bit data with the 12-character checksum computed HERE (BCH code of
+/// ELIP / Elements Core blech32.cpp; constants written out, not read from the crate)
+pub fn blech32_string(hrp: &str, data5: &[u8], m: bool) -> String {
+    const CH: &[u8] = b"qpzry9x8gf2tvdw0s3jn54khce6mua7l";
+    const G: [u64; 5] = [0x7d52fba40bd886, 0x5e8dbf1a03950c, 0x1c3a3c74072a18, 0x385d72fa0e5139, 0x7093e5a608865b];
+    let lower = hrp.to_lowercase();
+    let mut v: Vec<u8> = lower.bytes().map(|b| b >> 5).collect();
+    v.push(0);
+    v.extend(lower.bytes().map(|b| b & 31));
+    v.extend_from_slice(data5);
+    v.extend_from_slice(&[0u8; 12]);
+    let mut c: u64 = 1;
+    for &d in &v {
+        let c0 = c >> 55;
+        c = ((c & 0x7f_ffff_ffff_ffff) << 5) ^ d as u64;
+        for (i, g) in G.iter().enumerate() { if (c0 >> i) & 1 == 1 { c ^= g; } }
+    }
+    let pm = c ^ if m { 0x455972a3350f7a1 } else { 1 };
+    let mut s: Vec<u8> = lower.bytes().collect();
+    s.push(b'1');
+    s.extend(data5.iter().map(|d| CH[(*d & 31) as usize]));
+    s.extend((0..12).map(|i| CH[((pm >> (5 * (11 - i))) & 31) as usize]));
+    let s = String::from_utf8(s).unwrap();
+    if hrp.chars().any(|c| c.is_ascii_uppercase()) { s.to_uppercase() } else { s }
 }
